@@ -56,3 +56,77 @@ func ZZ_C14_p384_IsOnCurve_compares_all_limbs() {
 	}
 	zzAssert(zzIff(got, zzAnd(same...)), "IsOnCurve iff y^2 = x^3 - 3x + b in every limb")
 }
+
+// C11 (default build): the coordinates returned by the optimised P-384 curve operations are fresh
+// big integers - they share no storage with the operands - for every combination of the identity
+// (0,0) and a finite point as operands; so modifying a result never changes an operand (group
+// elements of group.P384 keep the returned pointers).  Field kernels uninterpreted.
+
+// memo variant of the kernels (set "fp384memo": fresh values, identical for identical inputs) for
+// harnesses whose paths branch on field values (zero tests): keeps the feasibility queries trivial
+
+//zz:replace ecc/p384.fp384Mul set=fp384memo
+func zzMemoFp384Mul(c, a, b *fp384) { zzMemoObj("fp384.mul", c, a, b) }
+
+//zz:replace ecc/p384.fp384Add set=fp384memo
+func zzMemoFp384Add(c, a, b *fp384) { zzMemoObj("fp384.add", c, a, b) }
+
+//zz:replace ecc/p384.fp384Sub set=fp384memo
+func zzMemoFp384Sub(c, a, b *fp384) { zzMemoObj("fp384.sub", c, a, b) }
+
+//zz:replace ecc/p384.fp384Neg set=fp384memo
+func zzMemoFp384Neg(c, a *fp384) { zzMemoObj("fp384.neg", c, a) }
+
+//zz:replace ecc/p384.fp384Cmov set=fp384memo
+func zzStubFp384Cmov(x, y *fp384, b int) {
+	if b != 0 {
+		*x = *y
+	}
+}
+
+//zz: prop=C11 also=C14 tier=quick backend=bv use=fp384memo timeout=300 maxpaths=4000 budget=600
+func ZZ_C11_p384_results_share_no_storage_with_operands() {
+	if !zzSymbolic() {
+		zzModelOnly()
+	}
+	pts := [][2]*big.Int{{big.NewInt(0), big.NewInt(0)}, {big.NewInt(5), big.NewInt(7)}}
+	a := pts[zzPick("first", 0, 1)]
+	second := pts[zzPick("second", 0, 1)]
+	b := [2]*big.Int{new(big.Int).Set(second[0]), new(big.Int).Set(second[1])}
+	var rx, ry *big.Int
+	switch zzPick("operation", 0, 1) {
+	case 0:
+		rx, ry = curve{}.Add(a[0], a[1], b[0], b[1])
+	case 1:
+		rx, ry = curve{}.Double(a[0], a[1])
+	}
+	zzAssert(rx != a[0] && rx != a[1] && rx != b[0] && rx != b[1] && ry != a[0] && ry != a[1] && ry != b[0] && ry != b[1] && rx != ry,
+		"the returned coordinates are distinct objects from every operand coordinate")
+}
+
+// C13 (default build): scalar multiplication by a scalar that is a non-zero byte string but zero
+// modulo the group order (N, 2N, N with leading zero bytes, N shifted by whole bytes) returns the
+// point at infinity and does not panic; the all-zero strings likewise.
+
+//zz: prop=C13 also=C14 tier=quick backend=bv use=fp384memo timeout=300
+func ZZ_C13_p384_scalar_mult_by_multiples_of_the_order() {
+	if !zzSymbolic() {
+		zzModelOnly()
+	}
+	n := curve{}.Params().N
+	var k []byte
+	switch zzPick("scalar", 0, 1, 2, 3, 4) {
+	case 0:
+		k = n.Bytes()
+	case 1:
+		k = new(big.Int).Lsh(n, 1).Bytes()
+	case 2:
+		k = append([]byte{0, 0}, n.Bytes()...)
+	case 3:
+		k = append(n.Bytes(), make([]byte, 48)...)
+	case 4:
+		k = make([]byte, 5)
+	}
+	x, y := curve{}.ScalarMult(big.NewInt(5), big.NewInt(7), k)
+	zzAssert(x.Sign() == 0 && y.Sign() == 0, "k = 0 mod N gives the point at infinity")
+}
